@@ -1,5 +1,6 @@
 //! Correspondence harness: runs cases on the real saveoursecrets/sdk code and prints one
 //! canonical observation line per step.  Usage: harness <prop> <cases-file>
+mod acct;
 mod alloc;
 mod c05;
 mod c06;
@@ -21,6 +22,7 @@ fn main() {
     let out = std::io::stdout();
     let mut out = std::io::BufWriter::new(out.lock());
     match args[1].as_str() {
+        "acct" | "c01" | "c02" | "c04" | "c12" | "c20" => acct::run(&text, &args[2], &mut out),
         "c05" => c05::run(&text, &args[2], &mut out),
         "c06" | "c07" => c06::run(&text, &args[2], &mut out),
         "c08" => c08::run(&text, &mut out),
